@@ -414,10 +414,21 @@ fn c07(a: &Args) -> Report {
         Op::RstLazy,
         Op::DamageRst,
     ];
-    let mut s = SeqSpec::new("C07/seq", alphabet, if thorough { 6 } else { 4 });
+    let mut s = SeqSpec::new("C07/seq", alphabet, if thorough { 6 } else { 5 });
     s.checks = Checks { no_harm: true, ..Default::default() };
-    let results = run_specs(&[s], a, &no_known);
-    seq_report("C07", a, "model_checking", results, SEQ_RULE)
+    let specs = if evidence::part_enabled("seq") { vec![s] } else { vec![] };
+    let results = run_specs(&specs, a, &no_known);
+    let mut rep = seq_report("C07", a, "model_checking", results, SEQ_RULE);
+    // the same monitors over every fault placement and over every crash state's recovery
+    if evidence::part_enabled("fault") {
+        let f = fault_part("C07", a, crate::engines::fault::FaultOracle::NoHarm);
+        merge_reports(&mut rep, f);
+    }
+    if evidence::part_enabled("crash") {
+        let c = crash_part("C07", a, crate::engines::crash::CrashOracle::NoHarm, 2, if thorough { 2048 } else { 300 }, if thorough { 6_000 } else { 500 });
+        merge_reports(&mut rep, c);
+    }
+    rep
 }
 
 fn c10(a: &Args) -> Report {
@@ -1206,6 +1217,10 @@ pub fn io_histories(max_len: usize) -> Vec<(String, Vec<Op>, u64)> {
 }
 
 fn c11(a: &Args) -> Report {
+    fault_part("C11", a, crate::engines::fault::FaultOracle::Containment)
+}
+
+fn fault_part(prop: &str, a: &Args, oracle: crate::engines::fault::FaultOracle) -> Report {
     use crate::engines::fault::{self, FaultSpec};
     let thorough = a.tier == "thorough";
     let mut specs = Vec::new();
@@ -1214,12 +1229,12 @@ fn c11(a: &Args) -> Report {
             if !thorough && mode == IoMode::Background && !name.starts_with("seed") {
                 continue;
             }
-            let mut s = FaultSpec::new(&format!("C11/{name}/{mode:?}"), mode, h.clone());
+            let mut s = FaultSpec::new(&format!("{prop}/fault/{name}/{mode:?}"), mode, h.clone());
             s.wcfg.max_data_in_blob = max_data;
             specs.push(s);
         }
     }
-    let r = fault::run(&specs, thorough, false, a.threads);
+    let r = fault::run(&specs, thorough, false, a.threads, oracle);
     let mut violations = Vec::new();
     let mut machinery = Vec::new();
     for v in &r.violations {
@@ -1242,13 +1257,14 @@ fn c11(a: &Args) -> Report {
     };
     violations.truncate(12);
     Report {
-        property: "C11".into(),
+        property: prop.into(),
         tier: a.tier.clone(),
         seed: a.seed,
         level: "fault_enumeration".into(),
         coverage: json!({
             "evaluations": r.stats.runs,
             "distinct_nontrivial": r.stats.distinct_outcomes,
+            "oracle": format!("{oracle:?}"),
             "rule": "for each history: one run per (operation kind in {create, open, write, sync, truncate, rename, remove, mkdir[, read]} x file class x n-th occurrence in the fault-free run x {ENOSPC, EIO, short write keeping 1 / half / all-but-one bytes}); distinct_nontrivial = distinct vectors of (per-step outcome, step at which the fault fired, quarantine count)",
             "samples": r.stats.samples,
             "exhaustive": true,
@@ -1266,20 +1282,25 @@ fn c11(a: &Args) -> Report {
 }
 
 fn c06(a: &Args) -> Report {
+    let thorough = a.tier == "thorough";
+    crash_part("C06", a, crate::engines::crash::CrashOracle::Recovery, if thorough { 3 } else { 2 }, if thorough { 8192 } else { 700 }, if thorough { 40_000 } else { 1_500 })
+}
+
+fn crash_part(prop: &str, a: &Args, oracle: crate::engines::crash::CrashOracle, hist_len: usize, fine_limit: usize, max_states: usize) -> Report {
     use crate::engines::crash::{self, CrashSpec};
     let thorough = a.tier == "thorough";
     let mut specs = Vec::new();
-    for (name, h, max_data) in io_histories(if thorough { 3 } else { 2 }) {
+    for (name, h, max_data) in io_histories(hist_len) {
         // the orderly variants only: an explicit try_close needs an active blob
         let modes: &[IoMode] = if thorough || name.starts_with("seed") { &[IoMode::Inplace, IoMode::Background] } else { &[IoMode::Inplace] };
         for mode in modes {
-            let mut s = CrashSpec::new(&format!("C06/{name}/{mode:?}"), *mode, h.clone());
+            let mut s = CrashSpec::new(&format!("{prop}/crash/{name}/{mode:?}"), *mode, h.clone());
             s.wcfg.max_data_in_blob = max_data;
-            s.fine_limit = if thorough { 8192 } else { 700 };
+            s.fine_limit = fine_limit;
             specs.push(s);
         }
     }
-    let r = crash::run(&specs, a.threads, if thorough { 40_000 } else { 1_500 });
+    let r = crash::run(&specs, a.threads, max_states, oracle);
     let mut violations = Vec::new();
     let mut machinery = Vec::new();
     let known = known_file();
@@ -1303,13 +1324,14 @@ fn c06(a: &Args) -> Report {
     }
     violations.truncate(24);
     Report {
-        property: "C06".into(),
+        property: prop.into(),
         tier: a.tier.clone(),
         seed: a.seed,
         level: "fault_enumeration".into(),
         coverage: json!({
             "evaluations": r.stats.recoveries,
             "distinct_nontrivial": r.stats.distinct_states,
+            "oracle": format!("{oracle:?}"),
             "rule": "per history: the ordered log of create/write/sync/truncate/rename events is recorded from the real code; crash after every event; kill = all issued bytes present (large in-flight writes also cut at 4 KiB boundaries); power loss = per file, un-synced bytes lost from every enumerated byte on (every byte for regions up to fine_limit, both ends of every write and page boundaries beyond), tail absent or zero-filled, un-synced writes dropped as subsets, index-header rewrite applied or not, other files all-present or durable-only; each distinct state recovered with init under validate_data on/off x ignore_corrupted on/off; distinct_nontrivial = distinct crash states",
             "samples": r.stats.samples,
             "exhaustive": true,
